@@ -1,6 +1,6 @@
 CONSTANTS Profiles = {"i64.small", "f64.zeros", "i64.big53", "i64.wrap32", "str.uni", "date.small"}
           Family = "pair"
-          MaxRows = 3
+          MaxRows = 2
           Impl = "asbuilt"
           Strict = FALSE
           EmitOn = TRUE
